@@ -16,6 +16,7 @@ from rsocket.rsocket_client import RSocketClient
 ALLOWED = allowed('C17')
 CAUSE = part('cause', 0)          # 0 server EOF, 1 transport error, 2 keep-alive time-out, 3 explicit reconnect while healthy
 ROUNDS = part('rounds', 1)
+RECONNECT_FROM_ON_CLOSE = part('from_on_close', False)   # causes 0/1: the application reconnects from its on_close callback
 CLOSE_RAISES = part('close_raises', False)   # the old transport's close() raises ConnectionResetError (reset connection)
 IDLE_MAX = part('idle_max', 2500000)
 PEND = part('pend', None)          # optional partition: [pending request-response?, pending stream?, when]
@@ -35,6 +36,8 @@ class _H(BaseRequestHandler):
 
     async def on_close(self, rsocket, exception=None):
         self.closed += 1
+        if RECONNECT_FROM_ON_CLOSE and self.closed <= ROUNDS:
+            await rsocket.reconnect()          # the usual application pattern (tests/rsocket/test_connection_lost.py)
 
 
 def _end_connection(loop, c, t, cause, idle_us):
@@ -43,12 +46,14 @@ def _end_connection(loop, c, t, cause, idle_us):
         t.eof()
         loop.run_ready()
         loop.advance_us(idle_us)
-        loop.create_task(c.reconnect())
+        if not RECONNECT_FROM_ON_CLOSE:
+            loop.create_task(c.reconnect())
     elif cause == 1:
         t.fail()
         loop.run_ready()
         loop.advance_us(idle_us)
-        loop.create_task(c.reconnect())
+        if not RECONNECT_FROM_ON_CLOSE:
+            loop.create_task(c.reconnect())
     elif cause == 2:
         t.auto_ack = False
         # the server goes silent: after max lifetime the time-out handler asks for a reconnect
@@ -75,7 +80,7 @@ def c_reconnect(pend_rr: bool, pend_rs: bool, when: int, idle_us: int, settle_us
     when = conc(when, 0, 1)
     loop = new_loop()
     with loop:
-        ts = [SimTransport(loop) for _ in range(ROUNDS + 1)]
+        ts = [SimTransport(loop) for _ in range(ROUNDS + 2)]       # one spare: an unrequested extra reconnect would take it
         for x in ts:
             x.close_raises = bool(CLOSE_RAISES)
             x.auto_ack = True           # a live server acknowledges keep-alives (until it goes silent for CAUSE 2)
@@ -166,6 +171,9 @@ def c_reconnect(pend_rr: bool, pend_rs: bool, when: int, idle_us: int, settle_us
                 devs.append('C17:' + d)
             if devs:
                 break
+        taken = len([x for x in ts if x.connect_calls > 0])
+        if not devs and taken != ROUNDS + 1:
+            devs.append('C17:%d-transports-taken-for-%d-reconnects' % (taken, ROUNDS))
         stats.note(True, {'cause': CAUSE, 'rounds': ROUNDS, 'pending': [bool(pend_rr), bool(pend_rs)], 'when': when})
         loop.create_task(c.close())
         loop.run_ready()
